@@ -30,8 +30,8 @@ def run(c):
              [T + "TransactionBody::verify_output_features", T + "TransactionBody::verify_kernel_features"], via=0)
     c.r2("no-coinbase-output-in-tx", T + "TransactionBody::verify_output_features", cond=r"Iterator::any\(slice::iter\(arg0\.outputs\)", err="InvalidOutputFeatures")
     c.r2("no-coinbase-kernel-in-tx", T + "TransactionBody::verify_kernel_features", cond=r"Iterator::any\(slice::iter\(arg0\.kernels\)", err="InvalidKernelFeatures")
-    for i, (fn, atom) in enumerate(((T + "TransactionBody::verify_output_features::{closure#0}", "Output::is_coinbase"),
-                                    (T + "TransactionBody::verify_kernel_features::{closure#0}", "TxKernel::is_coinbase"))):
+    for i, (fn, atom) in enumerate(((T + "TransactionBody::verify_output_features@iterator::Iterator::any", "Output::is_coinbase"),
+                                    (T + "TransactionBody::verify_kernel_features@iterator::Iterator::any", "TxKernel::is_coinbase"))):
         c.r1("feature-closure-%d" % i, fn, "re:::is_coinbase$", sink="return", via=0, desc="%s tests is_coinbase" % fn)
     # --- signatures
     c.r2("sig-single", T + "TxKernel::verify", cond=r"^aggsig::verify_single\(.*arg0\.excess_sig, TxKernel::msg_to_sign\(arg0\).*Commitment::to_pubkey\(arg0\.excess",
@@ -58,7 +58,7 @@ def run(c):
     c.r2("coinbase-sum", B + "Block::verify_coinbase", ops={"Ne"}, lhs=["call:pedersen::commit_sum"], rhs=["call:pedersen::commit_sum"], err="CoinbaseSumMismatch")
     c.r2_arg("coinbase-reward", B + "Block::verify_coinbase", "re:pedersen::commit_value$", 1, must=["call:consensus::reward", "call:Block::total_fees"])
     for i in (0, 1):
-        c.r1("coinbase-filter-%d" % i, B + "Block::verify_coinbase::{closure#%d}" % i, "re:::is_coinbase$", sink="return", via=0,
+        c.r1("coinbase-filter-%d" % i, B + "Block::verify_coinbase@iterator::Iterator::filter#%d" % (i + 1), "re:::is_coinbase$", sink="return", via=0,
              desc="verify_coinbase filter closure #%d selects by is_coinbase" % i)
     c.const_eq("reward-60", "grin_core::consensus::REWARD", 60 * 10**9)
     c.r2_ret("overage-reward", B + "BlockHeader::overage", must=["call:num::checked_neg", "re:^item:consensus::REWARD="])
@@ -68,7 +68,7 @@ def run(c):
     c.r1("validate-before-extending", P + "process_block", P + "validate_block", sink=X + "extending", via=0)
     c.r1("validate_block", P + "validate_block", B + "Block::validate", via=0)
     c.r2_arg("validate_block-offset", P + "validate_block", B + "Block::validate", 1, must=["call:Batch::get_previous_header", "re:total_kernel_offset$"])
-    c.r1("sums-before-apply", P + "process_block::{closure#0}", P + "verify_block_sums", sink=P + "apply_block_to_txhashset", via=0)
+    c.r1("sums-before-apply", P + "process_block@txhashset::txhashset::extending", P + "verify_block_sums", sink=P + "apply_block_to_txhashset", via=0)
     c.r1("fork-sums-before-apply", P + "rewind_and_apply_fork", P + "verify_block_sums", sink=P + "apply_block_to_txhashset", start=NEXT, via=0,
          desc="fork loop: each re-applied block passes verify_block_sums before apply_block_to_txhashset")
     c.r1("save-sums-after-check", P + "verify_block_sums", VKS, sink="grin_chain::store::Batch::save_block_sums", via=0)
@@ -80,9 +80,9 @@ def run(c):
          {P + "verify_block_sums", "grin_chain::chain::Chain::txhashset_write", "grin_chain::chain::setup_head",
           "grin_chain::txhashset::desegmenter::Desegmenter::validate_complete_state"}, floor_sites=5)
     sums = [VKS, X + "Extension::validate", X + "Extension::validate_kernel_sums"]
-    c.r1("sums-writer-1", "grin_chain::chain::Chain::txhashset_write::{closure#0}", sums, sink="grin_chain::store::Batch::save_block_sums", via=0)
-    c.r1("sums-writer-2", "grin_chain::txhashset::desegmenter::Desegmenter::validate_complete_state::{closure#1}", sums, sink="grin_chain::store::Batch::save_block_sums", via=0)
-    c.r1("sums-writer-3", "grin_chain::chain::setup_head::{closure#2}", sums, sink="grin_chain::store::Batch::save_block_sums", via=0)
+    c.r1("sums-writer-1", "grin_chain::chain::Chain::txhashset_write@txhashset::txhashset::extending", sums, sink="grin_chain::store::Batch::save_block_sums", via=0)
+    c.r1("sums-writer-2", "grin_chain::txhashset::desegmenter::Desegmenter::validate_complete_state@txhashset::txhashset::extending", sums, sink="grin_chain::store::Batch::save_block_sums", via=0)
+    c.r1("sums-writer-3", "grin_chain::chain::setup_head@txhashset::txhashset::extending#1", sums, sink="grin_chain::store::Batch::save_block_sums", via=0)
     c.r1("sums-writer-4", "grin_chain::chain::setup_head", sums, sink="grin_chain::store::Batch::save_block_sums", via=0,
          extra_cuts=c.true_edges("grin_chain::chain::setup_head", r"^slice::is_empty\(Block::kernels\(arg0\)\)$"),
          desc="setup_head (fresh node): genesis sums saved after verify_kernel_sums; only bypass is a kernel-less genesis (zero sums)")
@@ -111,9 +111,9 @@ def run(c):
     c.r1("state-sums", X + "Extension::validate_kernel_sums", VKS, via=0)
     c.r2_arg("state-sums-overage", X + "Extension::validate_kernel_sums", VKS, 1, must=["call:BlockHeader::total_overage"])
     c.r2_arg("state-sums-offset", X + "Extension::validate_kernel_sums", VKS, 2, must=["call:BlockHeader::total_kernel_offset"])
-    c.r2_arg("peer-state-never-fast-1", "grin_chain::chain::Chain::txhashset_write::{closure#0}", E, 2, const=0,
+    c.r2_arg("peer-state-never-fast-1", "grin_chain::chain::Chain::txhashset_write@txhashset::txhashset::extending", E, 2, const=0,
              desc="txhashset_write validates the received state with fast_validation = false")
-    c.r2_arg("peer-state-never-fast-2", "grin_chain::txhashset::desegmenter::Desegmenter::validate_complete_state::{closure#1}", E, 2, const=0,
+    c.r2_arg("peer-state-never-fast-2", "grin_chain::txhashset::desegmenter::Desegmenter::validate_complete_state@txhashset::txhashset::extending", E, 2, const=0,
              desc="validate_complete_state validates the PIBD state with fast_validation = false")
 
 
